@@ -141,7 +141,7 @@ def shards(tier):
         out += [{"kind": "sample", "n": 1500, "idx": i} for i in range(16)]
     else:
         out += [{"kind": "cells", "part": i, "nparts": 32} for i in range(32)]
-    per = 300 if tier == "quick" else 6000
+    per = 300 if tier == "quick" else 25000
     out += [{"kind": "random", "n": per, "idx": i} for i in range(12)]
     out += [{"kind": "collide", "n": per, "idx": i} for i in range(4)]
     return out
